@@ -9,6 +9,12 @@
 //!   'n' u64   number of elements args_os() yielded
 //!   's' [1]+bytes | [0]   one per element yielded by args(): Ok(str) / Err
 //!   'm' u64   number of elements args() yielded
+//!   'i' N x (u8 op, u32le k, u32le result): the iterators used through other entry points of the Iterator
+//!             protocol than a plain `next()` walk. op 0 args_os().nth(k), 1 args_os().skip(k).last(),
+//!             2 k x next() then last(), 3 k x next() then count(), 4 args_os().last();
+//!             ops 16..20 the same for args(). result = index of the yielded element among the
+//!             elements of the plain walk (by address), 0xffff_ffff for None, 0xffff_fffe for an
+//!             element that is none of them; for count() the count
 //!   per key:  'K' key bytes, 'u' var_unix result, 'v' var result
 //!             result = [0] Missing | [1]+value bytes | [2] NotUnicode | [3] not asked (key is not UTF-8)
 //!   'U' u64 get_uid, 'G' u64 get_gid, 'R' [0] | [1]+16 bytes (get_random, native endian), 'E' [0] | [1]+bytes (get_exec_fn)
@@ -106,6 +112,68 @@ pub fn main() -> i32 {
         m += 1;
     }
     rec(b'm', &m.to_le_bytes());
+
+    // ---- the same iterators through nth / last / skip / count
+    {
+        const NONE: u32 = 0xffff_ffff;
+        const FOREIGN: u32 = 0xffff_fffe;
+        let walk_os: Vec<usize> = tiny_std::env::args_os().map(|a| a.as_ptr() as usize).collect();
+        let walk: Vec<usize> = tiny_std::env::args().map(|a| a.map(|s| s.as_ptr() as usize).unwrap_or(0)).collect();
+        let idx_os = |e: Option<&UnixStr>| match e {
+            None => NONE,
+            Some(a) => walk_os.iter().position(|&p| p == a.as_ptr() as usize).map(|i| i as u32).unwrap_or(FOREIGN),
+        };
+        // args(): an element that is not UTF-8 has no address to compare; its position is found through args_os
+        let idx = |e: Option<Result<&str, tiny_std::Error>>, expect_pos: &mut dyn FnMut() -> u32| match e {
+            None => NONE,
+            Some(Ok(s)) => walk.iter().position(|&p| p == s.as_ptr() as usize).map(|i| i as u32).unwrap_or(FOREIGN),
+            Some(Err(_)) => expect_pos(),
+        };
+        let argc = walk_os.len();
+        let mut ks: Vec<usize> = Vec::new();
+        for k in [0usize, 1, 2, 3, argc.saturating_sub(2), argc.saturating_sub(1), argc, argc + 1, argc + 2] {
+            if !ks.contains(&k) {
+                ks.push(k);
+            }
+        }
+        let mut out: Vec<u8> = Vec::new();
+        let mut put = |op: u8, k: usize, r: u32| {
+            out.push(op);
+            out.extend_from_slice(&(k as u32).to_le_bytes());
+            out.extend_from_slice(&r.to_le_bytes());
+        };
+        // an Err element (not UTF-8) of args(): reported as the marker 0xffff_fffd, the driver knows where they are
+        let mut err_marker = || 0xffff_fffdu32;
+        put(4, 0, idx_os(tiny_std::env::args_os().last()));
+        put(20, 0, idx(tiny_std::env::args().last(), &mut err_marker));
+        for &k in &ks {
+            put(0, k, idx_os(tiny_std::env::args_os().nth(k)));
+            put(1, k, idx_os(tiny_std::env::args_os().skip(k).last()));
+            let mut it = tiny_std::env::args_os();
+            for _ in 0..k {
+                let _ = it.next();
+            }
+            put(2, k, idx_os(it.last()));
+            let mut it = tiny_std::env::args_os();
+            for _ in 0..k {
+                let _ = it.next();
+            }
+            put(3, k, it.count() as u32);
+            put(16, k, idx(tiny_std::env::args().nth(k), &mut err_marker));
+            put(17, k, idx(tiny_std::env::args().skip(k).last(), &mut err_marker));
+            let mut it = tiny_std::env::args();
+            for _ in 0..k {
+                let _ = it.next();
+            }
+            put(18, k, idx(it.last(), &mut err_marker));
+            let mut it = tiny_std::env::args();
+            for _ in 0..k {
+                let _ = it.next();
+            }
+            put(19, k, it.count() as u32);
+        }
+        rec(b'i', &out);
+    }
 
     // ---- environment lookups
     let mut input = Vec::new();
